@@ -149,7 +149,7 @@ info('C10',
      'P: order_combine_term, real source, any number of factors: the nested loops sort the factors by site and '
      'overall_sign * opval(sorted) == opval(original) in an uninterpreted Z2-graded operator algebra, using only explicit instances '
      'of its defining exchange law (contracts/c_terms.py, shared with C12); '
-     'MultiCouplingTerms.multi_coupling_term_handle_JW, real source, any number of factors on any sites (unit cell length fixed to 3): a JW string right of factor x, and a JW multiplied onto factor x from the right, iff the number of JW-needing factors among 0..x is odd; ValueError iff the total is odd; all sites move by one common shift (contracts/c_terms_jw.py). '
+     'MultiCouplingTerms.multi_coupling_term_handle_JW, real source, any number of factors on any sites, any unit cell length: a JW string right of factor x, and a JW multiplied onto factor x from the right, iff the number of JW-needing factors among 0..x is odd; ValueError iff the total is odd; all sites move by one common shift (contracts/c_terms_jw.py). '
      'B (bounded, not proof): random coupling models (onsite, two-site of any range/sign, 3-site, exponentially decaying; complex '
      'strengths; plus_hc; explicit_plus_hc) on finite open/periodic chains for every site family: dense MPO, term list -> MPO, '
      'bond operators, MPO from bonds, ExactDiag, get_numpy_Hamiltonian (both sources), get_scipy_sparse_Hamiltonian, sorted MPO '
@@ -161,7 +161,7 @@ info('C10',
      [])
 info('C12',
      'P: fermionic sign algebra of order_combine_term (bubble sort by site with sign bookkeeping, any length; shared with C10); '
-     'MultiCouplingTerms.multi_coupling_term_handle_JW, real source, any number of factors on any sites (unit cell length fixed to 3): a JW string right of factor x, and a JW multiplied onto factor x from the right, iff the number of JW-needing factors among 0..x is odd; ValueError iff the total is odd; all sites move by one common shift (contracts/c_terms_jw.py). '
+     'MultiCouplingTerms.multi_coupling_term_handle_JW, real source, any number of factors on any sites, any unit cell length: a JW string right of factor x, and a JW multiplied onto factor x from the right, iff the number of JW-needing factors among 0..x is odd; ValueError iff the total is odd; all sites move by one common shift (contracts/c_terms_jw.py). '
      'B (bounded; the site part is a complete enumeration of the stated finite domain): every predefined site class over S <= 3, '
      'Nmax <= 4, q <= 5, fillings and every conserve option: operators equal up to perm across options, spin / fermion / boson / clock '
      'algebra, declared h.c. pairs, operator charges consistent with the connected states, product names; grouped sites of 2-3 '
